@@ -60,8 +60,34 @@ def gen_plan(run_seed, tier, index):
     n = r.randint(4, 20)
     ops = opgen.gen_program(stream(run_seed, 'ops'), model,
                             dn or 'root/cimv2', n, switch_default_ns=True)
-    return {'check': ID, 'model_seed': mseed, 'default_ns': dn, 'ops': ops,
-            'ids_seed': stream(run_seed, 'ids').getrandbits(32)}
+    r2 = stream(run_seed, 'seq')
+    # sequences: the same operation with the same argument objects again
+    if r2.random() < 0.4:
+        for _ in range(r2.randint(1, 3)):
+            cands = [i for i, o in enumerate(ops)
+                     if o['op'] in ('ModifyInstance', 'GetInstance',
+                                    'CreateInstance', 'DeleteInstance',
+                                    'EnumerateInstances', 'InvokeMethod',
+                                    'ModifyClass', 'CreateClass',
+                                    'Associators', 'References')]
+            if not cands:
+                break
+            i = r2.choice(cands)
+            ops.insert(r2.randint(i + 1, len(ops)), copy.deepcopy(ops[i]))
+    plan = {'check': ID, 'model_seed': mseed, 'default_ns': dn, 'ops': ops,
+            'ids_seed': stream(run_seed, 'ids').getrandbits(32),
+            'reuse_args': r2.random() < 0.5}
+    # fault configuration (separate from the fault-free one): the reply to
+    # one request is lost after the server has executed it
+    if r2.random() < 0.25:
+        cands = [i for i, o in enumerate(ops)
+                 if o['op'] not in ('Iter', '$set_default_namespace') and
+                 not o['op'].startswith('Iter')]
+        if cands:
+            plan['lost_reply'] = {'op': r2.choice(cands),
+                                  'how': r2.choice(['reset', 'partial',
+                                                    'timeout', 'eof'])}
+    return plan
 
 
 # ---------------------------------------------------------- normalisation
@@ -253,6 +279,35 @@ class _Ids:
         return uuid.UUID(int=self.r.getrandbits(128), version=4)
 
 
+class _Lossy:
+    """The simulated server behind a transport that loses the reply to one
+    request after the server has executed it."""
+
+    def __init__(self, inner, how):
+        self.inner = inner
+        self.how = how
+        self.armed = False
+        self.fired = False
+
+    def __getattr__(self, name):
+        return getattr(self.inner, name)
+
+    def __call__(self, raw, idx):
+        acts = self.inner(raw, idx)
+        if not self.armed:
+            return acts
+        self.armed = False
+        self.fired = True
+        data = b''.join(a for a in acts if isinstance(a, bytes))
+        if self.how == 'reset':
+            return ['RESET']
+        if self.how == 'partial':
+            return [data[:max(1, len(data) // 2)], 'RESET']
+        if self.how == 'eof':
+            return [data[:max(1, len(data) // 3)]]
+        return ['TIMEOUT']
+
+
 def execute(plan):
     model = mg.gen_model(plan['model_seed'], allow_cr=True)
     dn = plan['default_ns']
@@ -275,6 +330,10 @@ def execute(plan):
         conn_s = mg.fresh_conn(model)
         opgen.register_echo(conn_s, model)
         server = wbemserver.SimWBEMServer(conn_s)
+        lossy = _Lossy(server, (plan.get('lost_reply') or {}).get('how'))
+        cache_w = {} if plan.get('reuse_args') else None
+        cache_d = {} if plan.get('reuse_args') else None
+        faults = {}
         # record what path D hands to _imethodcall/_methodcall
         d_calls = []
         orig_i, orig_m = conn_d._imethodcall, conn_d._methodcall
@@ -290,7 +349,7 @@ def execute(plan):
             return orig_m(methodname, objectname, Params, **params)
         conn_d._imethodcall = rec_i
         conn_d._methodcall = rec_m
-        net = wire.Net(server).install()
+        net = wire.Net(lossy).install()
         try:
             conn_w = pywbem.WBEMConnection(URL, **kw)
             host = conn_w.host
@@ -298,8 +357,12 @@ def execute(plan):
             reached = 0
             for i, op in enumerate(plan['ops']):
                 nseen0, nd0 = len(server.seen), len(d_calls)
-                rw = opgen.call(conn_w, op, res_w)
-                rd = opgen.call(conn_d, op, res_d)
+                lost = (plan.get('lost_reply') or {}).get('op') == i
+                lossy.armed = lost
+                lossy.fired = False
+                rw = opgen.call(conn_w, op, res_w, cache_w)
+                lossy.armed = False
+                rd = opgen.call(conn_d, op, res_d, cache_d)
                 res_w.append(rw)
                 res_d.append(rd)
                 name = op['op']
@@ -309,6 +372,31 @@ def execute(plan):
                 dcs = d_calls[nd0:]
                 if seen:
                     reached += 1
+                if lossy.fired:
+                    # the server executed the request, the reply was lost:
+                    # the caller must be told, and the request must not be
+                    # sent again behind its back
+                    faults['lost_reply_' + lossy.how] = 1
+                    if not (ow[0] == 'exc' and ow[1] in (
+                            'ConnectionError', 'TimeoutError')):
+                        viol('lost-reply-not-reported/%s' % name,
+                             'op #%d %s: the reply was lost (%s) but the '
+                             'call returned %s' % (i, name, lossy.how,
+                                                   _short(rw)))
+                    elif len(seen) != len(dcs):
+                        viol('request-count-differs/%s/after-lost-reply' %
+                             name, 'op #%d %s: the reply was lost (%s); '
+                             'the server saw %d requests, the direct path '
+                             'issued %d' % (i, name, lossy.how, len(seen),
+                                            len(dcs)))
+                    else:
+                        for sw, dc in zip(seen, dcs):
+                            msg = compare_request(sw, dc, conn_d, True)
+                            if msg:
+                                viol('request-differs/%s' % name,
+                                     'op #%d %s %r: %s' % (i, name, op, msg))
+                    trace.append((name, 'lost', lossy.how, len(seen)))
+                    break
                 # a non-CIM exception inside the provider stack surfaces as
                 # HTTP 500 on path W and as that exception on path D
                 if ow == ('exc', 'HTTPError') and seen and \
@@ -409,7 +497,7 @@ def execute(plan):
         bump('default_namespace_given')
     nontrivial = reached >= 3 and probes.get('ops_returning_objects', 0) >= 1
     return {'violations': V[:1], 'fingerprint': digest(trace),
-            'nontrivial': nontrivial, 'probes': probes, 'faults': {},
+            'nontrivial': nontrivial, 'probes': probes, 'faults': faults,
             'sim_seconds': 0.0, 'steps': len(plan['ops'])}
 
 
